@@ -14,7 +14,7 @@ from fractions import Fraction as Fr
 from lib.rat import R, F, close, dev
 
 ID = "C19"
-QUICK_N = 1500
+QUICK_N = 1300
 THOROUGH_N = 25000
 QUICK_BUDGET_S = 80
 THOROUGH_BUDGET_S = 900
@@ -28,7 +28,18 @@ RULE = ("charts arrive through ordinary histories that leave non-default row lab
         "(coinciding with tempo points / each other, before the first tempo point, after the last note), notes and holds "
         "(first note at or after the first tempo point, sometimes exactly on tempo points), five games, override "
         "absent / positive / 0; times and multipliers dyadic and tempos from the exactly representable set (so ties "
-        "between totals are exact) or arbitrary doubles; claims dominant / speed / normalize; non-trivial = at least two "
+        "between totals are exact) or arbitrary doubles; claims dominant / speed / normalize; 30 % of the cases are "
+        "SESSIONS on one chart object: 2-4 calls (any mix of the three routines, override absent / positive / 0, on the "
+        "object itself or on a deepcopy) with an edit between consecutive calls - shift / whole-column assignment / "
+        "append / trim / replace on the note, tempo or SV list through every editing route (list property column "
+        "assignment in place, iloc / loc / TimedList.__setitem__, a new frame on the same list, a new list object, the "
+        "Stacker, append / append(sort=True) / concat, before()/after()), favouring edits that move the first / last "
+        "object or change the tempo list; EVERY call is judged by the Lean specification against the chart's content at "
+        "that moment, read back through the plain list API, first / last object from the Lean Chart.bounds; 10 % are "
+        "boundary charts with a UNIQUE maximal bpm decided by one section (often the last) with margins down to 1/8 ms: "
+        "last / first object at exactly 0 (0.0 and -0.0), tempo points entirely negative, a tempo point at 0, one tempo "
+        "point, the last object ON a tempo point, and tie charts turned into near misses; the search stream "
+        "(gen_search) consists of these boundary / near-miss charts and sessions only; non-trivial = at least two "
         "distinct bpm values, or an SV that is in force at some breakpoint")
 ASSUMPTIONS = [
     "`last object` / `first object` of the statement are read as m.stack().offset.max()/min(), which range over notes, "
@@ -36,8 +47,11 @@ ASSUMPTIONS = [
     "tempo/SV point",
     "pandas sort_values(kind='stable') is modelled as a stable insertion sort (the `kind` arguments are read by the "
     "translator; before the fix of D28 the default unstable sort decided ties at the last offset)",
-    "the hypothesis `no SV before the first stacked offset` of scroll_speed_spec holds by construction (the first "
-    "stacked offset is the minimum over notes, tempo points and SVs)",
+    "first / last object are Chart.bounds of the Lean model (theorem chart_bounds_cover: they satisfy the hypotheses "
+    "`last at or after every tempo point` / `no SV before the first stacked offset` of the routine-level theorems); "
+    "the implementation's m.stack().offset.min()/max() is compared with them on every call",
+    "an edit between two calls of a session is any function of the chart (theorem session_spec); the harness realises "
+    "edits through the public list / Stacker API and reads the resulting content back, it does not model the edit",
     "coinciding SVs: the specification accepts any of them, the model takes the last in row order as the code does",
 ]
 TRUSTED_EXTRA = ["pandas groupby/merge/ffill/bfill/drop_duplicates/idxmax are modelled as list operations (Model/Analysis.lean)"]
@@ -171,17 +185,22 @@ def build_map(case):
     by = fl(mop["by"]) if mop and mop["op"] == "rate" else 1.0       # 2 or 1/2: exact in doubles
     kw = dict(keysounds=[]) if case["game"] == "quaver" else {}
     m = Map()
-    bp = [dict(offset=fl(t) * by, bpm=fl(b) / by) for t, b in case["bpms"]]
+    nz = bool(case.get("negzero"))
+
+    def flz(x):                        # every time equal to 0 is handed over as -0.0 when the case asks for it
+        v = float(F(x))
+        return -0.0 if (nz and v == 0.0) else v
+    bp = [dict(offset=flz(t) * by, bpm=fl(b) / by) for t, b in case["bpms"]]
     m.bpms = _apply_list_op(bp, hist.get("bpms"), lambda rs: BpmList([Bpm(**r) for r in rs]),
                             lambda o: dict(offset=o, bpm=120.0))
-    hits = [dict(offset=fl(t) * by, column=i % 4, **kw) for i, t in enumerate(case["notes"])]
+    hits = [dict(offset=flz(t) * by, column=i % 4, **kw) for i, t in enumerate(case["notes"])]
     m.hits = _apply_list_op(hits, hist.get("notes"), lambda rs: HitList([Hit(**r) for r in rs]),
                             lambda o: dict(offset=o, column=0, **kw))
-    holds = [dict(offset=fl(t) * by, column=i % 4, length=fl(l) * by, **kw) for i, (t, l) in enumerate(case.get("holds", []))]
+    holds = [dict(offset=flz(t) * by, column=i % 4, length=fl(l) * by, **kw) for i, (t, l) in enumerate(case.get("holds", []))]
     m.holds = _apply_list_op(holds, hist.get("notes"), lambda rs: HoldList([Hold(**r) for r in rs]),
                              lambda o: dict(offset=o, column=0, length=0.0, **kw))
     if Sv is not None:
-        sv = [dict(offset=fl(t) * by, multiplier=fl(x)) for t, x in case.get("svs", [])]
+        sv = [dict(offset=flz(t) * by, multiplier=fl(x)) for t, x in case.get("svs", [])]
         m.svs = _apply_list_op(sv, hist.get("svs"), lambda rs: SvList([Sv(**r) for r in rs]),
                                lambda o: dict(offset=o, multiplier=1.0))
     for name, val in (case.get("meta") or {}).items():       # non-default header fields
@@ -321,7 +340,9 @@ def valid(case):
                 tt = [F(p[0]) for p in case.get(key, [])]
                 if any(x >= y for x, y in zip(tt[:-1], tt[1:])):
                     return False
-        return exact_floats(case)
+        if case.get("negzero") not in (None, False, True):
+            return False
+        return exact_floats(case) and session_valid(case)
     except Exception:
         return False
 
@@ -501,16 +522,122 @@ def gen_meta(rng, c, game):
 
 def gen(rng, tier, i):
     c = _gen(rng, tier, i)
-    c["meta"] = gen_meta(rng, c, c["game"])
-    c["hist"] = gen_hist(rng, c, c["game"])
+    if "meta" not in c:
+        c["meta"] = gen_meta(rng, c, c["game"])
+    if "hist" not in c:
+        c["hist"] = gen_hist(rng, c, c["game"])
+    if rng.random() < 0.3:
+        c["session"] = gen_session(rng, c, c["game"], exact_stream(c))
+    return c
+
+
+def gen_boundary(rng, claim, game):
+    """falsy-but-legal values at the boundaries, with a UNIQUE maximal bpm so that the specification decides:
+    last / first object at offset exactly 0 (0.0 or -0.0), tempo points entirely on the negative axis, a single
+    tempo point, the last object ON a tempo point, a tempo point at 0. One section (`k`, often the last one) carries
+    a bpm value of its own and is longer than every other value's total by `margin` (down to 1/8 ms: near misses)."""
+    n = rng.choice([1, 1, 2, 2, 2, 3, 3, 4, 6])
+    last_on_tp = n >= 2 and rng.random() < 0.2            # the last section has length 0
+    vals = [Fr(x) for x in rng.sample(E_BPMS, 3)]
+    k = (n - 1) if rng.random() < 0.5 else rng.randrange(n)
+    if last_on_tp and k == n - 1:
+        k = rng.randrange(n - 1)
+    lens, bp = [], []
+    for j in range(n):
+        lens.append(Fr(rng.choice([125, 250, 500, 1000, 1500])))
+        bp.append(vals[0] if j == k else rng.choice(vals[1:]))
+    if last_on_tp:
+        lens[-1] = Fr(0)
+    others = {}
+    for j in range(n):
+        if j != k:
+            others[bp[j]] = others.get(bp[j], Fr(0)) + lens[j]
+    margin = Fr(rng.choice([Fr(1, 8), 1, 125, 1000, 4000]))
+    lens[k] = max(others.values(), default=Fr(0)) + margin
+    total = sum(lens)
+    anchor = rng.choice(["end0", "end0", "end0", "first0", "mid0", "none"])
+    if anchor == "end0":
+        t0 = -total
+    elif anchor == "first0":
+        t0 = Fr(0)
+    elif anchor == "mid0":
+        t0 = -sum(lens[:rng.randrange(0, n)])
+    else:
+        t0 = Fr(rng.choice([-3000, 250, 100000]))
+    times = [t0 + sum(lens[:j]) for j in range(n)]
+    end = t0 + total
+    notes = [t0 if rng.random() < 0.7 else t0 + min(total, Fr(125)), end]
+    for _ in range(rng.choice([0, 0, 1, 3])):
+        notes.append(t0 + Fr(int(total * rng.randrange(0, 9)), 8))
+    svs = []
+    if game in SV_GAMES:
+        for _ in range(rng.choice([0, 0, 1, 2, 3])):
+            svs.append((rng.choice([t0, end, Fr(0) if t0 <= 0 <= end else t0, rng.choice(times), t0 + Fr(int(total * 4), 8)]),
+                        Fr(rng.choice(E_MULTS))))
+    rows = list(zip(times, bp))
+    if rng.random() < 0.5:
+        rng.shuffle(rows)
+    ov = None
+    if claim != "dominant" and rng.random() < 0.25:
+        ov = rng.choice([Fr(0), Fr(0), vals[1], Fr(rng.choice(E_BPMS))])
+    c = _c(claim, game, rows, notes, svs=svs, override=ov)
+    if rng.random() < 0.4:
+        c["negzero"] = True
+    return c
+
+
+def break_tie(rng, c):
+    """near-miss variant of a chart whose totals tie: the last object is moved by a small step, so that one value is
+    the unique maximum and the specification decides"""
+    ts = all_times(c)
+    last, t0 = max(ts), min(F(t) for t, _ in c["bpms"])
+    d = Fr(rng.choice([Fr(1, 8), Fr(1, 2), 1, 125, 1000]))
+    new_last = last + d
+    if rng.random() < 0.5 and last - d > max(F(t) for t, _ in c["bpms"]) and all(F(t) <= last - d for t, _ in c.get("svs", [])):
+        # earlier: every object after the new end moves onto it
+        new_last = last - d
+        c["notes"] = [R(min(F(t), new_last)) for t in c["notes"]]
+        c["holds"] = [[R(min(F(t), new_last)), l] for t, l in c.get("holds", [])]
+    else:
+        c["notes"] = list(c["notes"]) + [R(new_last)]
+    return c
+
+
+def gen_search(rng, tier, i):
+    """the stream used when a correspondence breaks (lib/core.py): charts on which the specification DECIDES -
+    boundary layouts with a unique maximal bpm, tie charts turned into near misses, and sessions on all of them"""
+    r = rng.random()
+    claim = rng.choice(["dominant", "dominant", "speed", "normalize"])
+    game = rng.choice(SV_GAMES if claim == "normalize" else GAMES)
+    if r < 0.5:
+        c = gen_boundary(rng, claim, game)
+    elif r < 0.75:
+        c = break_tie(rng, gen_tie(rng, claim, game))
+    else:
+        c = _gen(rng, tier, i)
+        if "negzero" not in c and exact_stream(c):
+            tot = py_totals([(F(t), F(b)) for t, b in c["bpms"]], max(all_times(c)))
+            if sorted(tot.values())[-2:].count(max(tot.values())) > 1:
+                c = break_tie(rng, c)
+    c.setdefault("meta", {})
+    if "hist" not in c:
+        c["hist"] = gen_hist(rng, c, c["game"]) if rng.random() < 0.5 else {}
+    if rng.random() < 0.45:
+        c["session"] = gen_session(rng, c, c["game"], exact_stream(c))
     return c
 
 
 def _gen(rng, tier, i):
-    if rng.random() < 0.05:
+    q0 = rng.random()
+    if q0 < 0.05:
         claim = rng.choice(["dominant", "dominant", "speed", "normalize"])
         game = rng.choice(SV_GAMES if claim == "normalize" else GAMES)
         return gen_tie(rng, claim, game)
+    if q0 < 0.15:
+        claim = rng.choice(["dominant", "dominant", "speed", "normalize"])
+        game = rng.choice(SV_GAMES if claim == "normalize" else GAMES)
+        c = gen_boundary(rng, claim, game)
+        return break_tie(rng, gen_tie(rng, claim, game)) if rng.random() < 0.2 else c
     r = rng.random()
     claim = "dominant" if r < 0.3 else ("speed" if r < 0.8 else "normalize")
     if claim == "normalize":
@@ -593,14 +720,506 @@ def corpus():
                 meta=dict(initial_scroll_velocity=R(0.5))))
     c.append(_c("speed", "osu", [(0, 100), (1000, 200)], [0, 3000], svs=[(500, 2)],
                 meta=dict(slider_multiplier=R(2.5), stack_leniency=R(0.25))))
+    # falsy-but-legal boundary values with a unique maximal bpm (seeded change C19-G: `if last_offset` in a helper):
+    # tempo points on the negative axis, the last object at exactly 0 / -0.0; first object at 0; one tempo point
+    for nz in (False, True):
+        for claim, game in (("dominant", "osu"), ("dominant", "bms"), ("normalize", "quaver"), ("speed", "osu"), ("speed", "sm")):
+            c.append(_c(claim, game, [(-3000, 100), (-2000, 200)], [-3000, 0], negzero=nz))
+            c.append(_c(claim, game, [(-900, 180), (-600, 90), (-500, 60)], [-900, -100, 0], negzero=nz))
+            c.append(_c(claim, game, [(0, 100), (1000, 200)], [0, 3000], negzero=nz))
+            c.append(_c(claim, game, [(0, 150)], [0], negzero=nz))
+            c.append(_c(claim, game, [(-1000, 150)], [-1000, 0], negzero=nz))
+        c.append(_c("speed", "quaver", [(-2000, 100), (-500, 200), (0, 50)], [-2000, 0], svs=[(0, 2), (-2000, 0.5)], negzero=nz))
+        c.append(_c("speed", "osu", [(-2000, 100), (0, 200)], [-2000, -1000], svs=[(-2500, 2), (0, 0.5)], override=0, negzero=nz))
+    # sessions: a call, an edit of the same chart object, the next call (seeded change C19-H: a memoised Stacker
+    # that in-place column assignment does not invalidate); every editing route once
+    base = dict(bpms=[(0, 100), (1000, 200)], notes=[0, 1500])
+    for game in ("osu", "quaver", "sm"):
+        for via in SET_VIA:
+            c.append(_c("dominant", game, base["bpms"], base["notes"], svs=[(250, 2), (1000, 0.5)] if game in SV_GAMES else [],
+                        session=[dict(call="dominant", override=None, copy=0,
+                                      edit=dict(op="set", on="hits", col="offset", values=[R(0), R(5000)], via=via))]))
+        for via in SHIFT_VIA:
+            c.append(_c("speed", game, base["bpms"], [0, 5000], svs=[(250, 2), (1000, 0.5)] if game in SV_GAMES else [],
+                        session=[dict(call="speed", override=None, copy=0,
+                                      edit=dict(op="shift", on=["hits", "holds"], by=R(7000), via=via)),
+                                 dict(call="dominant", override=None, copy=1,
+                                      edit=dict(op="shift", on=["bpms"], by=R(-9000), via=via))]))
+    c.append(_c("normalize", "osu", base["bpms"], base["notes"], svs=[(250, 2)], session=[
+        dict(call="speed", override=R(75), copy=0, edit=dict(op="set", on="bpms", col="bpm", values=[R(200), R(100)], via="prop")),
+        dict(call="normalize", override=None, copy=2, edit=dict(op="append", on="hits", rows=[R(9000)], via="append")),
+        dict(call="dominant", override=None, copy=0, edit=dict(op="trim", on="hits", side="before", at=R(1500), via="method"))]))
+    c.append(_c("speed", "quaver", base["bpms"], base["notes"], svs=[(250, 2)], session=[
+        dict(call="normalize", override=None, copy=0, edit=dict(op="append", on="bpms", rows=[[R(1250), R(50)]], via="concat")),
+        dict(call="speed", override=R(0), copy=0, edit=dict(op="replace", on="hits", rows=[R(0), R(20000)], via="df")),
+        dict(call="dominant", override=None, copy=0, edit=dict(op="shift", on=["bpms", "svs", "hits", "holds"], by=R(-20000), via="stack"))]))
     return c
+
+
+# ------------------------------------------------------------------------------------------ sessions
+#
+# A session is a list of steps made BEFORE the case's own call:  step = {call, override, copy, edit}
+#   call / override : an analysis call on the chart as it is now (judged like any other call)
+#   copy            : 0 the chart object itself, 1 a deepcopy of it (the session goes on with the original),
+#                     2 a deepcopy of it (the session goes on with the copy)
+#   edit            : what is done to the chart after the call, {op, on, via, ...}:
+#       shift   on=[lists]  by=d            offset += d                     via iprop | prop | iloc | setitem | loc | df | list | stack | stackloc
+#       set     on=list col values          a whole column gets new values  via prop | iloc | setitem | loc | df | list | stack
+#       append  on=list rows                rows added                      via append | append_list | append_sort | concat
+#       trim    on=list side at             rows at or before / after `at`  via method | df | list
+#       replace on=list rows                a new list                      via list | df
+# `via` names the editing route: list property column assignment (in place, same frame), positional / label
+# indexers, TimedList.__setitem__, a new frame on the same list object, a new list object, the Stacker.
+
+LISTS = ("bpms", "svs", "hits", "holds")
+VCOL = dict(bpms="bpm", svs="multiplier", holds="length", hits=None)
+SET_VIA = ("prop", "iloc", "setitem", "loc", "df", "list", "stack", "stackloc")
+SHIFT_VIA = ("iprop",) + SET_VIA
+APPEND_VIA = ("append", "append_list", "append_sort", "concat")
+TRIM_VIA = ("method", "df", "list")
+REPLACE_VIA = ("list", "df")
+CALLS = ("dominant", "speed", "normalize")
+
+
+def sim_state(case):
+    """the chart's content as plain data (what the edits of a session are planned on; validity only)"""
+    sv = case.get("svs", []) if case["game"] in SV_GAMES else []
+    return dict(bpms=[(F(t), F(b)) for t, b in case["bpms"]], svs=[(F(t), F(x)) for t, x in sv],
+                hits=[F(t) for t in case["notes"]], holds=[(F(t), F(l)) for t, l in case.get("holds", [])])
+
+
+def _fadd(t, d):
+    return Fr(float(t) + float(d))          # what the chart does: a double addition
+
+
+def _toff(row):
+    return row[0] if isinstance(row, tuple) else row
+
+
+def _with_off(row, t):
+    return (t, row[1]) if isinstance(row, tuple) else t
+
+
+def sim_edit(st, ed):
+    """effect of an edit on the plain content; None when the edit does not apply to this content"""
+    try:
+        st = {k: list(v) for k, v in st.items()}
+        op = ed["op"]
+        if op == "shift":
+            d = F(ed["by"])
+            for L in ed["on"]:
+                st[L] = [_with_off(r, _fadd(_toff(r), d)) for r in st[L]]
+            return st
+        L = ed["on"]
+        if L not in LISTS:
+            return None
+        if op == "set":
+            vals = [F(v) for v in ed["values"]]
+            if len(vals) != len(st[L]) or not vals:
+                return None
+            if ed["col"] == "offset":
+                st[L] = [_with_off(r, v) for r, v in zip(st[L], vals)]
+            elif ed["col"] == VCOL[L] and L != "hits":
+                st[L] = [(r[0], v) for r, v in zip(st[L], vals)]
+            else:
+                return None
+            return st
+        if op in ("append", "replace"):
+            rows = [F(r) if L == "hits" else (F(r[0]), F(r[1])) for r in ed["rows"]]
+            if not rows:
+                return None
+            st[L] = (st[L] if op == "append" else []) + rows
+            return st
+        if op == "trim":
+            x = F(ed["at"])
+            st[L] = [r for r in st[L] if (_toff(r) <= x if ed["side"] == "before" else _toff(r) >= x)]
+            return st
+        return None
+    except Exception:
+        return None
+
+
+def state_valid(st, game):
+    """inside the quantifier of the property: a tempo point at or before the first object, one object, tempo
+    points at distinct times, bpm > 0; every number a double"""
+    if st is None or not st["bpms"]:
+        return False
+    ts = [t for t, _ in st["bpms"]]
+    if len(set(ts)) != len(ts) or any(b <= 0 for _, b in st["bpms"]):
+        return False
+    notes = list(st["hits"]) + [t for t, _ in st["holds"]]
+    if not notes or min(notes) < min(ts):
+        return False
+    if any(l < 0 for _, l in st["holds"]) or (st["svs"] and game not in SV_GAMES):
+        return False
+    nums = ts + [b for _, b in st["bpms"]] + notes + [l for _, l in st["holds"]] + [v for p in st["svs"] for v in p]
+    return all(Fr(float(v)) == v and abs(v) < 2 ** 40 for v in nums)
+
+
+def same_content(st, ct):
+    return all(sorted(st[k]) == sorted(ct[k]) for k in LISTS)
+
+
+def edit_wellformed(ed, game):
+    op, via = ed.get("op"), ed.get("via")
+    if op == "shift":
+        return (via in SHIFT_VIA and isinstance(ed.get("on"), list) and ed["on"] and len(set(ed["on"])) == len(ed["on"])
+                and all(L in LISTS and (L != "svs" or game in SV_GAMES) for L in ed["on"]))
+    if ed.get("on") not in LISTS or (ed["on"] == "svs" and game not in SV_GAMES):
+        return False
+    if op == "set":
+        return via in SET_VIA and ed.get("col") in ("offset", VCOL[ed["on"]]) and ed.get("col") is not None
+    if op == "append":
+        return via in APPEND_VIA
+    if op == "trim":
+        return via in TRIM_VIA and ed.get("side") in ("before", "after")
+    if op == "replace":
+        return via in REPLACE_VIA
+    return False
+
+
+def session_valid(case):
+    steps = case.get("session")
+    if steps is None:
+        return True
+    if not isinstance(steps, list) or len(steps) > 3:
+        return False
+    game = case["game"]
+    st = sim_state(case)
+    for step in steps:
+        if step.get("call") not in CALLS or (step["call"] == "normalize" and game not in SV_GAMES):
+            return False
+        ov = step.get("override")
+        if ov is not None and (F(ov) < 0 or Fr(float(F(ov))) != F(ov)):
+            return False
+        if step.get("copy", 0) not in (0, 1, 2):
+            return False
+        ed = step.get("edit")
+        if ed is not None:
+            if not edit_wellformed(ed, game):
+                return False
+            st = sim_edit(st, ed)
+            if not state_valid(st, game):
+                return False
+    return True
+
+
+def _items(game, L, rows, start=0):
+    Map, Bpm, BpmList, Hit, HitList, Hold, HoldList, Sv, SvList = _classes(game)
+    kw = dict(keysounds=[]) if game == "quaver" else {}
+    if L == "bpms":
+        return BpmList, [Bpm(offset=float(t), bpm=float(b)) for t, b in rows]
+    if L == "svs":
+        return SvList, [Sv(offset=float(t), multiplier=float(x)) for t, x in rows]
+    if L == "hits":
+        return HitList, [Hit(offset=float(t), column=(start + i) % 4, **kw) for i, t in enumerate(rows)]
+    return HoldList, [Hold(offset=float(t), column=(start + i) % 4, length=float(l), **kw) for i, (t, l) in enumerate(rows)]
+
+
+def _set_col(m, L, col, vals, via, parity=0):
+    """assigns a whole column of list `L` of chart `m` through the route `via`"""
+    import numpy as np
+    lst = getattr(m, L)
+    if via in ("prop", "iprop"):                       # list property: self.df[col] = val   (same frame, in place)
+        setattr(lst, col, list(vals) if parity % 2 == 0 else np.array(vals, dtype=float))
+    elif via == "iloc":
+        ci = list(lst.df.columns).index(col)
+        for i, v in enumerate(vals):
+            lst.iloc[i, ci] = v
+    elif via == "setitem":                             # TimedList.__setitem__
+        ci = list(lst.df.columns).index(col)
+        for i, v in enumerate(vals):
+            lst[i, ci] = v
+    elif via == "loc":
+        lst.loc[:, col] = list(vals)
+    elif via == "df":                                  # a new frame on the same list object
+        lst.df = lst.df.assign(**{col: list(vals)})
+    elif via == "list":                                # a new list object on the chart
+        setattr(m, L, type(lst)(lst.df.assign(**{col: list(vals)})))
+    elif via == "stack":                               # through the Stacker restricted to this list's class
+        s = m.stack((type(lst),))
+        s[col] = list(vals)
+    elif via == "stackloc":                            # Stacker.loc (conditional indexer of the stacked frame)
+        s = m.stack((type(lst),))
+        s.loc[:, col] = list(vals)
+    else:
+        raise ValueError(via)
+
+
+def apply_edit(m, game, ed):
+    """carries an edit out on the chart object through the public API"""
+    import pandas as pd
+    op, via = ed["op"], ed["via"]
+    if op == "shift":
+        d = fl(ed["by"])
+        present = [L for L in LISTS if hasattr(m, L)]
+        if via in ("stack", "stackloc"):
+            if sorted(ed["on"]) == sorted(present):
+                s = m.stack()
+            else:
+                s = m.stack(tuple(type(getattr(m, L)) for L in ed["on"]))
+            if via == "stack":
+                s.offset += d
+            else:
+                s.loc[s.offset == s.offset, "offset"] += d      # a condition that holds for every row
+            return
+        for L in ed["on"]:
+            lst = getattr(m, L)
+            if via == "iprop":
+                lst.offset += d
+            else:
+                _set_col(m, L, "offset", [float(v) + d for v in lst.offset.tolist()], via, parity=len(ed["on"]))
+        return
+    L = ed["on"]
+    lst = getattr(m, L)
+    if op == "set":
+        _set_col(m, L, ed["col"], [fl(v) for v in ed["values"]], via, parity=len(ed["values"]))
+    elif op == "append":
+        Cls, items = _items(game, L, [F(r) if L == "hits" else (F(r[0]), F(r[1])) for r in ed["rows"]], start=len(lst))
+        if via == "append":
+            for it in items:
+                lst = lst.append(it)
+            setattr(m, L, lst)
+        elif via == "append_list":
+            setattr(m, L, lst.append(Cls(items)))
+        elif via == "append_sort":
+            setattr(m, L, lst.append(Cls(items), sort=True))
+        else:
+            lst.df = pd.concat([lst.df, Cls(items).df], ignore_index=True)
+    elif op == "trim":
+        x = fl(ed["at"])
+        before = ed["side"] == "before"
+        if via == "method":
+            setattr(m, L, lst.before(x, include_end=True) if before else lst.after(x, include_end=True))
+        elif via == "df":
+            lst.df = lst.df[lst.df.offset <= x] if before else lst.df[lst.df.offset >= x]
+        else:
+            setattr(m, L, type(lst)(lst.df[lst.df.offset <= x] if before else lst.df[lst.df.offset >= x]))
+    elif op == "replace":
+        Cls, items = _items(game, L, [F(r) if L == "hits" else (F(r[0]), F(r[1])) for r in ed["rows"]])
+        if via == "list":
+            setattr(m, L, Cls(items))
+        else:
+            lst.df = Cls(items).df
+    else:
+        raise ValueError(op)
+
+
+def py_totals(bpms, last):
+    """total active time per bpm value (plain Python, only used to steer the generators)"""
+    sb = sorted(bpms)
+    tot = {}
+    for (t, b), nxt in zip(sb, [t for t, _ in sb[1:]] + [last]):
+        tot[b] = tot.get(b, Fr(0)) + (nxt - t)
+    return tot
+
+
+def st_last(st):
+    return max([t for t, _ in st["bpms"]] + list(st["hits"]) + [t for t, _ in st["holds"]] + [t for t, _ in st["svs"]])
+
+
+def gen_edit(rng, st, game, exact=True):
+    """one edit that keeps the chart inside the quantifier; favours edits that move the first / last object or
+    change the tempo list (what an analysis result depends on)"""
+    lists = [L for L in LISTS if L != "svs" or game in SV_GAMES]
+    last = st_last(st)
+    t0 = min(t for t, _ in st["bpms"])
+    span = max(last - t0, Fr(1000))
+    for _ in range(8):
+        k = rng.choice(["extend", "extend", "shorten", "shift", "shift", "rebpm", "rebpm", "retime", "append", "append",
+                        "trim", "replace", "remult"])
+        ed = None
+        if k in ("extend", "shorten") and (st["hits"] or st["holds"]):
+            L = "hits" if st["hits"] and (not st["holds"] or rng.random() < 0.8) else "holds"
+            offs = [_toff(r) for r in st[L]]
+            i = offs.index(max(offs))
+            if k == "extend":
+                offs[i] = last + rng.choice([Fr(125), Fr(1000), span, 2 * span + 125, 5 * span])
+            else:
+                offs[i] = t0 + rng.choice([Fr(0), (offs[i] - t0) / 2, (offs[i] - t0) / 4])
+                offs[i] = Fr(float(offs[i]))
+            ed = dict(op="set", on=L, col="offset", values=[R(v) for v in offs], via=rng.choice(SET_VIA))
+        elif k == "shift":
+            d = Fr(rng.choice([125, 2000, 10000, 0.5, 333.25])) * rng.choice([1, -1])
+            on = rng.choice([lists, lists, ["hits", "holds"], ["bpms"], ["bpms", "svs"] if game in SV_GAMES else ["bpms"],
+                             ["svs"] if game in SV_GAMES else ["hits"], ["hits"]])
+            if rng.random() < 0.3:                    # a chart moved so that it starts / ends exactly at 0
+                d = -(last if rng.random() < 0.5 else t0)
+                on = lists
+            ed = dict(op="shift", on=list(on), by=R(d), via=rng.choice(SHIFT_VIA))
+        elif k == "rebpm":
+            vals = [b for _, b in st["bpms"]]
+            if rng.random() < 0.5 and len(set(vals)) > 1:
+                rng.shuffle(vals)
+            else:
+                vals = [g_bpm(rng, exact, vals[:2]) for _ in vals]
+            ed = dict(op="set", on="bpms", col="bpm", values=[R(Fr(float(v))) for v in vals], via=rng.choice(SET_VIA))
+        elif k == "retime" and len(st["bpms"]) > 1:
+            ts = [t for t, _ in st["bpms"]]
+            if rng.random() < 0.5:
+                rng.shuffle(ts)                       # the same times on other rows
+            else:
+                f = rng.choice([2, Fr(1, 2)])
+                ts = [Fr(float(t0 + (t - t0) * f)) for t in ts]
+            ed = dict(op="set", on="bpms", col="offset", values=[R(t) for t in ts], via=rng.choice(SET_VIA))
+        elif k == "remult" and st["svs"]:
+            ed = dict(op="set", on="svs", col="multiplier", values=[R(g_mult(rng, True)) for _ in st["svs"]],
+                      via=rng.choice(SET_VIA))
+        elif k == "append":
+            L = rng.choice(["bpms", "hits", "hits"] + (["svs"] if game in SV_GAMES else []))
+            t = last + rng.choice([Fr(125), Fr(1000), span, 3 * span])
+            if L == "bpms":
+                if rng.random() < 0.4:
+                    t = Fr(float(t0 + (last - t0) * Fr(rng.choice([1, 3, 5, 7]), 8) + Fr(1, 8)))
+                rows = [[R(t), R(g_bpm(rng, exact, [b for _, b in st["bpms"]][:2]))]]
+            elif L == "svs":
+                rows = [[R(t), R(g_mult(rng, True))]]
+            else:
+                rows = [R(t)]
+            ed = dict(op="append", on=L, rows=rows, via=rng.choice(APPEND_VIA))
+        elif k == "trim":
+            L = rng.choice(["hits", "hits", "bpms"] + (["svs"] if game in SV_GAMES else []))
+            offs = sorted(_toff(r) for r in st[L])
+            if offs:
+                x = offs[len(offs) // 2]
+                side = "before" if L != "bpms" or rng.random() < 0.5 else "after"
+                ed = dict(op="trim", on=L, side=side, at=R(x), via=rng.choice(TRIM_VIA))
+        elif k == "replace":
+            L = rng.choice(["hits", "bpms"])
+            if L == "hits":
+                rows = [R(Fr(float(t0 + rng.choice([Fr(0), span / 2, span * 2, Fr(125)])))) for _ in range(rng.choice([1, 2, 3]))]
+            else:
+                n = rng.choice([1, 2, 3])
+                rows = [[R(Fr(float(t0 - 250 + 500 * j))), R(g_bpm(rng, exact, []))] for j in range(n)]
+                rows[0][0] = R(t0 - rng.choice([0, 250]))
+            ed = dict(op="replace", on=L, rows=rows, via=rng.choice(REPLACE_VIA))
+        if ed is None or not edit_wellformed(ed, game):
+            continue
+        nst = sim_edit(st, ed)
+        if state_valid(nst, game):
+            return ed, nst
+    return None, st
+
+
+def gen_session(rng, c, game, exact=True):
+    """1-3 (call, edit) steps before the case's own call"""
+    st = sim_state(c)
+    steps = []
+    for _ in range(rng.choice([1, 1, 2, 2, 3])):
+        call = rng.choice(["dominant", "speed", "normalize"] if game in SV_GAMES else ["dominant", "speed"])
+        ov = None
+        if call != "dominant":
+            q = rng.random()
+            if q < 0.35:
+                ov = R(g_bpm(rng, True, [b for _, b in st["bpms"]][:3]))
+            elif q < 0.4:
+                ov = R(0)
+        ed, st = gen_edit(rng, st, game, exact)
+        steps.append(dict(call=call, override=ov, copy=rng.choice([0, 0, 0, 0, 0, 1, 2]), edit=ed))
+    return steps
 
 
 # ------------------------------------------------------------------------------------------ run
 
+def content(m, game):
+    """the chart's CURRENT content, read through the plain list API (never through m.stack()): what every call
+    is judged against. Rows in the lists' row order."""
+    bp = [(Fr(float(o)), Fr(float(b))) for o, b in zip(m.bpms.offset.tolist(), m.bpms.bpm.tolist())]
+    sv = []
+    if game in SV_GAMES:
+        sv = [(Fr(float(o)), Fr(float(x))) for o, x in zip(m.svs.offset.tolist(), m.svs.multiplier.tolist())]
+    hits = [Fr(float(o)) for o in m.hits.offset.tolist()]
+    holds = [(Fr(float(o)), Fr(float(l))) for o, l in zip(m.holds.offset.tolist(), m.holds.length.tolist())]
+    return dict(bpms=bp, svs=sv, hits=hits, holds=holds)
+
+
+def jc_of(ct, game, override, drv):
+    """model / spec input of one call: the chart's current content + the override of that call; first / last
+    object are `Chart.bounds` of the Lean model (least / greatest offset of what m.stack() ranges over)"""
+    ts = [t for t, _ in ct["bpms"]] + list(ct["hits"]) + [t for t, _ in ct["holds"]] + [t for t, _ in ct["svs"]]
+    b = drv.call("c19.bounds", has_sv=game in SV_GAMES, bpms=[[R(t), R(x)] for t, x in ct["bpms"]],
+                 svs=[[R(t), R(x)] for t, x in ct["svs"]], notes=[R(t) for t in list(ct["hits"]) + [t for t, _ in ct["holds"]]])
+    if "ok" not in b or [F(b["ok"][0]), F(b["ok"][1])] != [min(ts), max(ts)]:
+        raise AssertionError(f"Chart.bounds {b} vs {min(ts)}, {max(ts)}")
+    small = all(t.denominator <= 8 and abs(t) < 2 ** 30 for t in
+                [t for t, _ in ct["bpms"]] + list(ct["hits"]) + [t for t, _ in ct["holds"]] + [t for t, _ in ct["svs"]])
+    return dict(bpms=[[R(t), R(b)] for t, b in ct["bpms"]], svs=[[R(t), R(x)] for t, x in ct["svs"]],
+                omin=R(min(ts)), omax=R(max(ts)), last=R(max(ts)), override=override, has_sv=game in SV_GAMES,
+                exact_stream=small)
+
+
 def run(case, drv):
+    """builds the chart through its history, then makes the calls of the session (an analysis call, an edit of the
+    same chart object, the next call, ...; a case without `session` is a single call). EVERY call is judged by the
+    Lean specification against the chart's content at that moment."""
+    import copy
     warnings.simplefilter("ignore")
-    return dict(dominant=run_dominant, speed=run_speed, normalize=run_normalize)[case["claim"]](case, drv)
+    m = build_map(case)
+    game = case["game"]
+    tags = base_tags(case, None)
+    tags += [f"labels:{x}" for x in labels_nondefault(m)] + ([] if m._c19_rows["as_planned"] else ["end-state-reordered"])
+    if case.get("negzero"):
+        tags.append("negative-zero")
+    steps = case.get("session") or []
+    results = []
+    st = content(m, game)          # row order as in the chart (a history may have re-ordered the rows of the case)
+    for k, step in enumerate(steps):
+        target = m
+        cp = step.get("copy", 0)
+        if cp == 2:
+            m = copy.deepcopy(m)
+            target = m
+        elif cp == 1:
+            target = copy.deepcopy(m)
+        if cp:
+            tags.append(f"call-on-deepcopy:{cp}")
+        results.append(judge(step["call"], target, game, step.get("override"), drv))
+        ed = step.get("edit")
+        if ed:
+            apply_edit(m, game, ed)
+            tags.append(f"edit:{ed['op']}:{ed.get('on', 'all')}:{ed['via']}")
+            st = sim_edit(st, ed)
+            if st is None or not same_content(st, content(m, game)):
+                tags.append("edit-diverged")          # the harness' own bookkeeping; the judge reads the chart itself
+                st = {k2: list(v) for k2, v in content(m, game).items()}
+    results.append(judge(case["claim"], m, game, case.get("override"), drv))
+    if steps:
+        tags.append(f"session:{len(results)}-calls")
+        kinds = sorted({r["claim"] for r in results})
+        tags.append("session-mix:" + "+".join(kinds))
+    return combine(results, tags)
+
+
+def combine(results, tags):
+    bad = [(k, r) for k, r in enumerate(results) if not (r["ok"] and r["agree"])]
+    viol = [(k, r) for k, r in bad if not r["ok"]]
+    k, first = (viol or bad or [(len(results) - 1, results[-1])])[0]
+    out = dict(claim=first["claim"], ok=all(r["ok"] for r in results), agree=all(r["agree"] for r in results),
+               dom=first["dom"] if bad else all(r["dom"] for r in results), kf=first.get("kf"),
+               tags=sorted(set(tags) | {t for r in results for t in r["tags"]}),
+               nontrivial=any(r["nontrivial"] for r in results), maxdev=max(r["maxdev"] for r in results),
+               boundary=any(r["boundary"] for r in results), detail={})
+    if bad:
+        out["detail"] = dict(first["detail"], call_index=k, calls=len(results))
+    return out
+
+
+def judge(claim, m, game, override, drv):
+    ct = content(m, game)
+    jc = jc_of(ct, game, override, drv)
+    tags = []
+    ts = sorted(F(t) for t, _ in jc["bpms"])
+    if F(jc["omax"]) == 0:
+        tags.append("last-object-at-0")
+    if F(jc["omin"]) == 0:
+        tags.append("first-object-at-0")
+    if ts and ts[-1] < 0:
+        tags.append("tempo-all-negative")
+    if ts and ts[-1] == F(jc["omax"]):
+        tags.append("last-object-on-tempo-point")
+    r = dict(dominant=judge_dominant, speed=judge_speed, normalize=judge_normalize)[claim](m, jc, game, drv)
+    r["tags"] = tags + r["tags"]
+    return r
 
 
 def base_tags(case, jc):
@@ -617,16 +1236,16 @@ def base_tags(case, jc):
     return tags
 
 
-def domain(case, jc, drv):
+def domain(jc, drv):
     d = drv.call("c19.dom", bpms=jc["bpms"], omax=jc["omax"])["ok"]
     return d
 
 
-def admissible_refs(drv, jc, case):
+def admissible_refs(drv, jc):
     """reference bpms the specification admits (`Spec.refSet`); off the exact stream a total within the float
     tolerance of the maximum counts as maximal too (the code sums doubles). Returns (refs, near_tie, exact refs)."""
     exact = [F(x) for x in drv.call("c19.refs", bpms=jc["bpms"], last=jc["last"], override=jc["override"])["ok"]]
-    if (jc["override"] is not None and F(jc["override"]) != 0) or exact_stream(case):
+    if (jc["override"] is not None and F(jc["override"]) != 0) or jc["exact_stream"]:
         return exact, False, exact
     sp = drv.call("c19.dominant_spec", bpms=jc["bpms"], last=jc["last"])["ok"]
     totals = [(F(k), F(v)) for k, v in sp["totals"]]
@@ -643,19 +1262,16 @@ def stack_bounds_agree(m, jc):
     return Fr(float(s.offset.min())) == F(jc["omin"]) and Fr(float(s.offset.max())) == F(jc["omax"])
 
 
-def run_dominant(case, drv):
+def judge_dominant(m, jc, game, drv):
     from reamber.algorithms.utils import dominant_bpm
-    m = build_map(case)
-    jc = jcase(case, m)
-    tags = base_tags(case, jc)
-    tags += [f"labels:{x}" for x in labels_nondefault(m)] + ([] if m._c19_rows["as_planned"] else ["end-state-reordered"])
+    tags = []
     try:
         impl = ("ok", to_fr(dominant_bpm(m)))
     except Exception as e:
         impl = ("err", err_class(e))
     mo = drv.call("c19.dominant", bpms=jc["bpms"], last=jc["last"])
     sp = drv.call("c19.dominant_spec", bpms=jc["bpms"], last=jc["last"])["ok"]
-    d = domain(case, jc, drv)
+    d = domain(jc, drv)
     in_dom = d["tempo_ok"] and d["last_ok"]
     totals = {F(k): F(v) for k, v in sp["totals"]}
     best = max(totals.values()) if totals else Fr(0)
@@ -680,25 +1296,24 @@ def run_dominant(case, drv):
         if "ok" not in mo:
             agree = False
         elif F(mo["ok"]) != v:
-            if v in totals and abs(totals[v] - totals[F(mo["ok"])]) <= tol and not exact_stream(case):
+            if v in totals and abs(totals[v] - totals[F(mo["ok"])]) <= tol and not jc["exact_stream"]:
                 boundary = True
             else:
                 agree = False
     if not (ok and agree):
-        detail = dict(impl=str(impl), model=mo, spec=sp)
+        detail = dict(impl=str(impl), model=mo, spec=sp, content=dict(bpms=jc["bpms"], last=jc["last"]))
     if len(sp["set"]) > 1:
         tags.append("tied-totals")
+    else:
+        tags.append("unique-maximum")
     return dict(claim="dominant", ok=ok, agree=agree, dom=in_dom, kf=None, tags=tags,
                 nontrivial=len(totals) >= 2, maxdev=maxdev, boundary=boundary, detail=detail)
 
 
-def run_normalize(case, drv):
+def judge_normalize(m, jc, game, drv):
     from reamber.algorithms.generate.sv_normalize import sv_normalize
-    m = build_map(case)
-    jc = jcase(case, m)
-    tags = base_tags(case, jc) + ["override" if case.get("override") is not None else "dominant-ref"]
-    tags += [f"labels:{x}" for x in labels_nondefault(m)] + ([] if m._c19_rows["as_planned"] else ["end-state-reordered"])
-    ov = None if case.get("override") is None else fl(case["override"])
+    tags = ["override" if jc["override"] is not None else "dominant-ref"]
+    ov = None if jc["override"] is None else float(F(jc["override"]))
     try:
         out = sv_normalize(m) if ov is None else sv_normalize(m, ov)
         df = out.df
@@ -707,9 +1322,9 @@ def run_normalize(case, drv):
     except Exception as e:
         impl = ("err", err_class(e))
     mo = drv.call("c19.sv_normalize", bpms=jc["bpms"], last=jc["last"], override=jc["override"])
-    refs, near_tie, exact_refs = admissible_refs(drv, jc, case)
-    d = domain(case, jc, drv)
-    in_dom = d["tempo_ok"] and d["last_ok"] and not (case.get("override") is not None and F(case["override"]) == 0)
+    refs, near_tie, exact_refs = admissible_refs(drv, jc)
+    d = domain(jc, drv)
+    in_dom = d["tempo_ok"] and d["last_ok"] and not (jc["override"] is not None and F(jc["override"]) == 0)
     ok, agree, maxdev, detail = True, stack_bounds_agree(m, jc), 0.0, {}
     if impl[0] == "err":
         ok = not in_dom
@@ -729,7 +1344,7 @@ def run_normalize(case, drv):
                     ok = True
                     maxdev = max([dev(F(p), ref) for p in ck["products"]] + [0.0])
                     break
-            expect_cls = {"osu": "OsuSvList", "quaver": "QuaSvList"}[case["game"]]
+            expect_cls = {"osu": "OsuSvList", "quaver": "QuaSvList"}[game]
             if impl[2] != expect_cls:
                 ok = False
         if "ok" not in mo or len(mo["ok"]) != len(rows):
@@ -739,10 +1354,13 @@ def run_normalize(case, drv):
                 if a != F(ma) or not close(b, F(mb)):
                     # a different maximiser of an exact tie is a legitimate reference too (spec: any)
                     agree = False
+    if len(exact_refs) == 1 and jc["override"] is None:
+        tags.append("unique-maximum")
     if not (ok and agree):
-        detail = dict(impl=str(impl)[:1500], model=mo, refs=[str(r) for r in refs])
+        detail = dict(impl=str(impl)[:1500], model=mo, refs=[str(r) for r in refs],
+                      content=dict(bpms=jc["bpms"], last=jc["last"], override=jc["override"]))
     return dict(claim="normalize", ok=ok, agree=agree, dom=in_dom, kf=None, tags=tags, boundary=near_tie,
-                nontrivial=len({F(b) for _, b in case["bpms"]}) >= 2, maxdev=maxdev, detail=detail)
+                nontrivial=len({F(b) for _, b in jc["bpms"]}) >= 2, maxdev=maxdev, detail=detail)
 
 
 def _speed_eval(drv, jc, ref, rows):
@@ -762,14 +1380,10 @@ def _speed_eval(drv, jc, ref, rows):
     return ck["breakpoints_ok"], passes, md, ck
 
 
-def run_speed(case, drv):
+def judge_speed(m, jc, game, drv):
     from reamber.algorithms.analysis.scroll_speed import scroll_speed
-    m = build_map(case)
-    jc = jcase(case, m)
-    tags = base_tags(case, jc) + ["override" if case.get("override") is not None else "dominant-ref",
-                                  "has-sv" if jc["has_sv"] else "no-sv"]
-    tags += [f"labels:{x}" for x in labels_nondefault(m)] + ([] if m._c19_rows["as_planned"] else ["end-state-reordered"])
-    ov = None if case.get("override") is None else fl(case["override"])
+    tags = ["override" if jc["override"] is not None else "dominant-ref", "has-sv" if jc["has_sv"] else "no-sv"]
+    ov = None if jc["override"] is None else float(F(jc["override"]))
     try:
         s = scroll_speed(m) if ov is None else scroll_speed(m, ov)
         impl = ("ok", [(to_fr(t), to_fr(v)) for t, v in zip(s.index.tolist(), s.tolist())])
@@ -777,13 +1391,15 @@ def run_speed(case, drv):
         impl = ("err", err_class(e))
     mo = drv.call("c19.scroll_speed", has_sv=jc["has_sv"], bpms=jc["bpms"], svs=jc["svs"], omin=jc["omin"], omax=jc["omax"],
                   override=jc["override"])
-    refs, near_tie, exact_refs = admissible_refs(drv, jc, case)
-    d = domain(case, jc, drv)
+    refs, near_tie, exact_refs = admissible_refs(drv, jc)
+    d = domain(jc, drv)
     in_dom = (d["tempo_ok"] and d["last_ok"]
-              and not (case.get("override") is not None and F(case["override"]) == 0))
+              and not (jc["override"] is not None and F(jc["override"]) == 0))
     ok, agree, maxdev, detail, kf = True, stack_bounds_agree(m, jc), 0.0, {}, None
     if d["tie_at_max"]:
         tags.append("tie-at-last-offset")
+    if len(exact_refs) == 1 and (jc["override"] is None or F(jc["override"]) == 0):
+        tags.append("unique-maximum")
     if impl[0] == "err":
         ok = not (d["tempo_ok"] and d["last_ok"])
         agree = agree and "err" in mo and mo["err"] == impl[1]
@@ -811,8 +1427,8 @@ def run_speed(case, drv):
             agree = False
         else:
             if d["tempo_ok"] and d["last_ok"] and exact_refs:
-                # the part of scroll_speed_spec that is not proved yet: the model's own output must satisfy the
-                # executable specification exactly (model uses the smallest maximiser / the override)
+                # the model's own output must satisfy the executable specification exactly (theorem
+                # scroll_speed_spec, re-checked on the concrete input; model uses the smallest maximiser / the override)
                 mck = drv.call("c19.speed_check", has_sv=jc["has_sv"], bpms=jc["bpms"], svs=jc["svs"], omin=jc["omin"],
                                omax=jc["omax"], ref=R(exact_refs[0]), out=mo["ok"])["ok"]
                 if not mck["exact"]:
@@ -828,8 +1444,9 @@ def run_speed(case, drv):
                         agree = False
         if not (ok and agree):
             detail = dict(impl=[(str(t), str(v)) for t, v in rows][:200], model=mo, refs=[str(r) for r in refs],
-                          check=last_ck)
+                          check=last_ck, content=dict(bpms=jc["bpms"], svs=jc["svs"], omin=jc["omin"], omax=jc["omax"],
+                                                      override=jc["override"]))
     sv_in_force = jc["has_sv"] and any(F(t) >= min(F(p[0]) for p in jc["bpms"]) for t, _ in jc["svs"])
-    nontrivial = len({F(b) for _, b in case["bpms"]}) >= 2 or sv_in_force
+    nontrivial = len({F(b) for _, b in jc["bpms"]}) >= 2 or sv_in_force
     return dict(claim="speed", ok=ok, agree=agree, dom=in_dom, kf=kf, tags=tags, nontrivial=nontrivial, maxdev=maxdev,
                 boundary=near_tie, detail=detail)
